@@ -118,6 +118,15 @@ CLAIMED = {
         "DESIGN.md 4 C16",
         "The clock is virtual: the module attribute progress_bar.time is rebound from outside (no source hook).",
     ),
+    "C17": (
+        "Hypothesis histories of command lines on one application object, differential against a freshly built application per run; fresh-interpreter differential over construction orders of table styles; double renders",
+        "2-6 (thorough 10) command lines of 14 kinds (valid, failing, help variants, version, raising handlers) on one application, each "
+        "run compared (status, streams, handler arguments) with a fresh identical application and the leniency of every command config "
+        "compared with its initial value; the same with one shared parser instance; all construction orders of the predefined table styles "
+        "with one of them customised, in fresh interpreters; components and consecutive traces rendered repeatedly.",
+        "DESIGN.md 4 C17",
+        "Style orders run in short-lived child interpreters (vf/style_child.py) importing clikit from the tree under test.",
+    ),
     "C20": (
         "Hypothesis-generated source files and exceptions rendered by ExceptionTrace, validity predicates on the rendered text (message, numbering, marker, verbatim source lines against the generated source, ignore filter); corpus sweep of the highlighter",
         "Exceptions raised from generated on-disk sources (filler from an adversarial line pool, CRLF, missing trailing newline), exec'd and "
